@@ -25,6 +25,14 @@ COMMON_ASSUMPTIONS = [
 
 
 def P(level, quick_s, thorough_s, rule, assumptions=None, variant="asan", sanitizers=ASAN, expect_probes=None, phases=None):
+    if phases is None and variant == "asan":
+        # second compiler: a tenth of the budget replays the first run indexes (the same plans) on the native g++ -O2 build
+        # of the same sources - what production is compiled like. No sanitizer there; the oracles, signals and the
+        # watchdog decide. Compiler-dependent behaviour (argument evaluation order, optimisations that exploit undefined
+        # behaviour) is otherwise only ever seen through clang -O1.
+        phases = [{"tag": "asan", "bin": "simcheck", "wrap": [], "share": 0.9, "shrink": 400},
+                  {"tag": "gcc-O2", "variant": "plain", "bin": "simcheck", "wrap": [], "share": 0.1, "shrink": 200}]
+        sanitizers = sanitizers + "; phase gcc-O2 (10 % of the budget): the same plans on a native g++ -O2 build without sanitizers"
     return {
         "phases": phases,
         "level": level,
@@ -73,7 +81,7 @@ PROPS = {
              "stale replay on any frame, corrupt-version / corrupt-type on segment frames (at most one per operation); quick: 0-12 seeded faults per run; thorough additionally sweeps every single fault "
              "kind at every one of 24 frame positions and every pair at distance 1..7 over seeded base streams; oracle over the recorded history: safety (every delivered packet equals a sent message) and "
              "bounded recovery (a message whose frames arrive complete, in order, uninterrupted is delivered at its last frame); distinct = plan hash; non-trivial = at least one fault applied and one frame delivered",
-             expect_probes=["recovery-demanded", "drop", "dup", "delay", "stale-replay", "corrupt-version", "corrupt-type", "partition"]),
+             expect_probes=["recovery-demanded", "drop", "dup", "delay", "stale-replay", "corrupt-version", "corrupt-type", "partition", "64-or-more-endpoints-mid-message-at-once"]),
     "C07": P("exploration", 20, 480,
              "histories of encode calls on long-lived Encoders: batches of 0..40 messages, boundary-biased payload lengths (fit/no-fit of an empty frame and of the room left in the current frame, per the "
              "reference packer), DataContext over 25..65559 x 0..max incl. min=max, contexts changing between calls, all three encode overloads + std::list iterators; oracle = FrameWalker over every frame; "
